@@ -21,20 +21,21 @@ type accKey struct {
 }
 
 type Summary struct {
-	Acc    map[accKey]string // -> site of a representative instruction
-	Ret    []Val             // per result
-	RetLoc map[retKey]string // memory a returned value points to directly: (result, location, root) -> site
-	Cb     map[Tag]TagSet    // function-typed parameter / free variable that is invoked -> roots of the arguments it gets
+	Acc    map[accKey]string        // -> site of a representative instruction
+	Ret    []Val                    // per result
+	RetLoc map[retKey]string        // memory a returned value points to directly: (result, location, root) -> site
+	EscFn  map[*ssa.Function]string // function values handed to code behind an interface -> site
+	Cb     map[Tag]TagSet           // function-typed parameter / free variable that is invoked -> roots of the arguments it gets
 	API    map[string]bool
 	Spawns bool
 }
 
 func newSummary() *Summary {
-	return &Summary{Acc: map[accKey]string{}, Cb: map[Tag]TagSet{}, API: map[string]bool{}, RetLoc: map[retKey]string{}}
+	return &Summary{Acc: map[accKey]string{}, Cb: map[Tag]TagSet{}, API: map[string]bool{}, RetLoc: map[retKey]string{}, EscFn: map[*ssa.Function]string{}}
 }
 
 func (s *Summary) size() int {
-	n := len(s.Acc) + len(s.API) + len(s.RetLoc)
+	n := len(s.Acc) + len(s.API) + len(s.RetLoc) + len(s.EscFn)
 	for _, r := range s.Ret {
 		n += len(r[0]) + len(r[1]) + len(r[2])
 	}
@@ -1166,6 +1167,11 @@ func (fa *funcAnalysis) apply(t *target) {
 	if s.Spawns {
 		fa.sum.Spawns = true
 	}
+	for f, site := range s.EscFn {
+		if old, ok := fa.sum.EscFn[f]; !ok || site < old {
+			fa.sum.EscFn[f] = site
+		}
+	}
 }
 
 var threadSafeRecv = map[string]bool{"regexp.Regexp": true, "os.File": true, "log.Logger": true, "time.Ticker": true, "time.Timer": true,
@@ -1262,7 +1268,39 @@ func (fa *funcAnalysis) builtinCall(b *ssa.Builtin, cc *ssa.CallCommon, ins ssa.
 	}
 }
 
+// escaping records the function values a call hands to an implementation behind an interface:
+// interfaces are open, the receiver may be user code that keeps the function and calls it at any
+// time from any goroutine (persist.Watcher.SetUpdateCallback is the case in point).
+func (fa *funcAnalysis) escaping(cc *ssa.CallCommon, ins ssa.Instruction) {
+	if !cc.IsInvoke() {
+		return
+	}
+	for _, a := range cc.Args {
+		if _, ok := a.Type().Underlying().(*types.Signature); !ok {
+			continue
+		}
+		var srcs []ssa.Value
+		fa.funcSources(a, map[ssa.Value]bool{}, &srcs)
+		for _, s := range srcs {
+			var f *ssa.Function
+			switch x := s.(type) {
+			case *ssa.MakeClosure:
+				f = x.Fn.(*ssa.Function)
+			case *ssa.Function:
+				f = x
+			}
+			if f != nil && f.Blocks != nil {
+				site := fa.site(ins)
+				if old, ok := fa.sum.EscFn[f]; !ok || site < old {
+					fa.sum.EscFn[f] = site
+				}
+			}
+		}
+	}
+}
+
 func (fa *funcAnalysis) call(cc *ssa.CallCommon, ins ssa.Instruction) {
+	fa.escaping(cc, ins)
 	ts, opaque, bi := fa.resolve(cc)
 	if bi != nil {
 		fa.builtinCall(bi, cc, ins)
